@@ -59,6 +59,10 @@ def handle : Handler := fun j => do
     let oVendors ← getStrList obs "vendors"
     let oClasses ← getStrList obs "classes"
     let oErrKeys ← getStrList obs "errorkeys"
+    -- the directories the cache says it uses: the configured list, cleaned, in order (absent in old replays)
+    let oDirsOK := match getStrList obs "specdirs" with
+      | .ok l => l == dirs.map (fun d => Path.clean d.1)
+      | .error _ => true
     let oRefreshErr ← getBool obs "refresherr"
     let oRes ← (← getArr obs "resolve").toList.mapM readRes
     let oVS ← (← getArr obs "vendorspecs").toList.mapM fun e => do
@@ -75,7 +79,7 @@ def handle : Handler := fun j => do
       | some m => r.found && m.path == r.path && m.prio == r.prio && m.device == r.device
     let vsAgree := oVS.all fun (v, ps) => st.vendorSpecs v == ps
     let agree := !p && mDevices == oDevices && mVendors == oVendors && mClasses == oClasses &&
-      mErrKeys == oErrKeys && resAgree && vsAgree && (oRefreshErr == (mErrKeys != []))
+      mErrKeys == oErrKeys && resAgree && vsAgree && (oRefreshErr == (mErrKeys != [])) && oDirsOK
     -- judge (declarative)
     let badRes := oRes.find? fun r =>
       match resolution r.q items with
@@ -83,6 +87,7 @@ def handle : Handler := fun j => do
       | some w => !(r.found && w.path == r.path && w.prio == r.prio && w.device == r.device)
     let judge : Option String :=
       if p then some "panic"
+      else if !oDirsOK then some "directory-listing-differs-from-the-configured-list"
       else if badRes.isSome then some "resolution-differs-from-precedence-rule"
       else if oDevices != devicesSpec items then some "device-listing"
       else if oVendors != vendorsSpec items then some "vendor-listing"
